@@ -19,14 +19,20 @@ var validTokens = []string{
 	"世", "界", "é", "É", "1", "-", " ", "x", "z", "Z", "�", "ϑ", "ϴ", "θ", "Θ",
 	"ᲈ", "Ꙋ", "ꙋ", "Å", "å", "Å", "σ", "ς", "Σ", "ῼ", "ῳ", "ⱦ", "Ⱦ", "ɐ", "Ɐ",
 	"😀", ".", "0", "\x00", "\x7f", "Ა", "ა", "ᲀ", "в", "В", "ﬅ", "ﬆ", "𞤢", "𞤀", "ꭰ", "Ꭰ",
+	// one code point for every class of UTF-8 lead byte and both ends of every encoded length
+	"\u0080", "\u07ff", "\u0800", "\u0fff", "\u1000", "\ud7ff", "\ue000", "\uffff", "\U00010000", "\U0003ffff",
+	"\U00040000", "\U000fffff", "\U00100000", "\U0010ffff", "न", "ส", "ก", "ꯍ",
 }
 
 var caselessTokens = []string{
 	"1", "2", "0", "-", " ", ".", ",", "世", "界", "😀", "�", "_", "!", "@", "语", "あ", " ", "€", "\x00", "\x7f", "𝄞", "×",
+	"\u0080", "\u07ff", "\u0800", "\u0fff", "\u1000", "\ud7ff", "\ue000", "\uffff", "\U00010000", "\U0003ffff",
+	"\U00040000", "\U000fffff", "\U00100000", "\U0010ffff", "न", "ส", "ก", "[", "{", "`", "~",
 }
 
 var asciiTokens = []string{
 	"a", "A", "b", "B", "k", "K", "s", "S", "z", "Z", "x", "1", "-", " ", ".", "@", "[", "`", "{", "\x00", "\x7f", "i", "I",
+	"]", "}", "^", "~", "_", "\x1f", "?", "\x5c", "|", "0", "\x10", "*", "\n",
 }
 
 var badTokens = []string{
